@@ -360,4 +360,58 @@ theorem set_frame_conv (g : G) (b n : Nat) (x : Node) (h : ¬ Reach g b n) {m : 
     apply Reach.step ih
     simpa [G.set, hne] using he
 
+/-! ## The copy has the fields of the original (one level; by recursion every level) -/
+
+/-- does field `e` of an object of type `t` appear in the copy? -/
+def kept (S : Spec) (env : Ty → Option Nat) (t : Ty) (e : Label × Nat) : Bool :=
+  match S t e.1 with
+  | .zero => false
+  | .toNew u => (env u).isSome
+  | _ => true
+
+theorem foldl_labels (S : Spec) (t : Ty) (env : Ty → Option Nat) (rec : G → Nat → G × Nat) :
+    ∀ (l : List (Label × Nat)) (acc : G × List (Label × Nat)),
+      ((l.foldl (cloneEdge S t env rec) acc).2).map Prod.fst =
+        acc.2.map Prod.fst ++ (l.filter (kept S env t)).map Prod.fst := by
+  intro l
+  induction l with
+  | nil => intro acc; simp
+  | cons e es ih =>
+    intro acc
+    simp only [List.foldl_cons]
+    rw [ih]
+    unfold cloneEdge
+    cases hS : S t e.1 with
+    | share => simp [kept, hS]
+    | zero => simp [kept, hS]
+    | fresh => simp [kept, hS]
+    | copy => simp [kept, hS]
+    | toNew u =>
+      cases hu : env u with
+      | none => simp [kept, hS, hu]
+      | some n => simp [kept, hS, hu]
+
+theorem foldl_shared (S : Spec) (t : Ty) (env : Ty → Option Nat) (rec : G → Nat → G × Nat) :
+    ∀ (l : List (Label × Nat)) (acc : G × List (Label × Nat)) (e : Label × Nat),
+      (e ∈ acc.2 ∨ (e ∈ l ∧ S t e.1 = .share)) → e ∈ (l.foldl (cloneEdge S t env rec) acc).2 := by
+  intro l
+  induction l with
+  | nil => intro acc e h; rcases h with h | ⟨h, _⟩; exact h; simp at h
+  | cons x xs ih =>
+    intro acc e h
+    simp only [List.foldl_cons]
+    apply ih
+    rcases h with h | ⟨h, hS⟩
+    · left
+      unfold cloneEdge
+      split <;> try (simp [h])
+      · split <;> simp [h]
+    · simp only [List.mem_cons] at h
+      rcases h with h | h
+      · left
+        subst h
+        unfold cloneEdge
+        simp [hS]
+      · right; exact ⟨h, hS⟩
+
 end Req.Graph
